@@ -94,6 +94,34 @@ func profiles() map[string]Profile {
 	m["C15"] = p
 
 	p = base
+	p.Name = "C09"
+	p.MemOnly = 0
+	p.Flush, p.Revert, p.Reopen, p.Snap, p.SnapClose, p.Visit, p.Copy = 10, 3, 5, 3, 2, 5, 2
+	p.FlushExtra = []string{"wlog %F"}
+	p.EndExtra = []string{"wlog %F", "appendcheck %F"}
+	m["C09"] = p
+
+	p = base
+	p.Name = "C14"
+	p.MemOnly = 0
+	p.Flush, p.Image, p.Copy, p.BigVals, p.SetColl, p.RmColl, p.MaxColls = 12, 8, 3, true, 4, 2, 6
+	p.FlushExtra = []string{"image %F", "imagehex %F", "opendump %F"}
+	m["C14"] = p
+
+	p = base
+	p.Name = "C19"
+	p.MemOnly = 0
+	p.Flush, p.Evict, p.Reopen, p.Visit, p.GetI, p.Min, p.Max, p.Exist, p.Len, p.Drop = 10, 8, 10, 8, 10, 5, 5, 5, 2, 30
+	p.Snap, p.SnapClose, p.BigVals = 2, 1, true
+	p.KeyOnlyReads = true
+	m["C19"] = p
+
+	p = base
+	p.Name = "C18"
+	p.Iter, p.Set, p.Evict, p.Flush, p.Reopen, p.HeapCheck = 30, 30, 5, 5, 3, 3
+	m["C18"] = p
+
+	p = base
 	p.Name = "C17"
 	p.Flush, p.Image, p.Visit, p.Copy, p.Reopen, p.MemOnly = 10, 5, 6, 2, 6, 10
 	p.Cfg = func(r *rand.Rand) int { return r.Intn(256) }
